@@ -2319,3 +2319,19 @@ M("C04-ignoreinvolved-typedef-arm-compares-name", "C04", F_IB,
 # ---- R07.17 (S10-C07: `or` lexed as bitwise or)
 M("C07-or-is-bitwise", "C07", F_PP, "  {\"or\", OROR},", "  {\"or\", '|'},", expect="R07.17|keywords|or|primary-token")
 M("C07-not-eq-is-not", "C07", F_PP, "  {\"not_eq\", NECOMPARE},", "  {\"not_eq\", '!'},", expect="R07.17|keywords|not_eq|primary-token")
+
+# ---- R13.8 (S10-C13: the first index of a module belongs to the module before)
+M("C13-module-search-excludes-first-index", "C13", F_DBX, "  if (index <= function) {\n    return binary_search_module(mid, end, function);", "  if (index < function) {\n    return binary_search_module(mid, end, function);",
+  expect="R13.8|binary_search_module|")
+M("C13-benign-module-search-condition-swapped", "C13", F_DBX, "  if (index <= function) {\n    return binary_search_module(mid, end, function);", "  if (function >= index) {\n    return binary_search_module(mid, end, function);", benign=True)
+
+# ---- R20.12 character-read clause (S10-C20)
+M("C20-has-library-name-reads-through-null", "C20", "src/interrogatedb/interrogateComponent.I",
+  "  const char *name = get_library_name();\n  return (name != nullptr && name[0] != '\\0');", "  return (_def != nullptr && _def->library_name[0] != '\\0');",
+  expect="R20.12|InterrogateComponent::has_library_name|")
+
+# ---- R15.31 (S10-C15: pop_macro stores the saved nullptr)
+M("C15-pop-macro-restores-null-into-the-table", "C15", F_PP,
+  "      if (manifest == nullptr) {\n        // It was undefined when it was pushed, so make it undefined again.\n        if (mi != _manifests.end()) {\n          _manifests.erase(mi);\n        }\n      } else if (mi != _manifests.end()) {\n        mi->second = manifest;\n      } else {\n        _manifests.insert(Manifests::value_type(macro, manifest));\n      }\n",
+  "      if (mi == _manifests.end()) {\n        _manifests.insert(Manifests::value_type(macro, manifest));\n      } else if (manifest == nullptr) {\n        _manifests.erase(mi);\n      } else {\n        mi->second = manifest;\n      }\n",
+  expect="R15.31|CPPPreprocessor::handle_pragma_directive|")
